@@ -6,7 +6,9 @@ from gen import common as C
 STRINGS = ["", "a", "abc", "a b", "a&b=c", "%41", "a+b", "x=y&z=w", "#frag", ";", "/?:@", "é", "日本語",
            "\U0001F600", "\x00", "\n\t", "%", "%%", "&", "=", "+", " ", "client_id=evil", "&client_secret=x",
            "%26", "q?x#y", "ümlaut:pass", ":", "::", "a:b", "\x7f", "\u0080", "\uffff", "a" * 1024,
-           "a;b", "a&amp;b", "%zz", "%4", "\r\n", "\\", "\"", "'", "*-._~", "AZaz09", "~", "a\u0300", "\U0010FFFF"]
+           "a;b", "a&amp;b", "%zz", "%4", "\r\n", "\\", "\"", "'", "*-._~", "AZaz09", "~", "a\u0300", "\U0010FFFF",
+           # values that ARE the name of a protocol parameter
+           "client_id", "client_secret", "grant_type", "scope", "redirect_uri", "code", "token", "Authorization", "Basic"]
 IDS = ["aaa", "client id", "id:with:colons", "é", "", "a%3Ab", "a+b", "id&x=y", "日本", "a=b", "%", "a\x00b"]
 SECRETS = [None, "bbb", "s e c", "p:w", "pä$$", "", "%2B", "a&b", "=", "\U0001F600", "a" * 300]
 ENDPOINTS = ["https://example.com/token", "https://example.com/token?foo=bar", "https://example.com:8443/t",
@@ -106,7 +108,7 @@ def kind_args(kind, rng, strings):
     if kind == "introspect":
         return C.tb(s()), C.topt(rng.choice([None, "access_token", "refresh_token", s()])), "-"
     if kind == "revoke":
-        tk = rng.choice(["A", "R", "C", "AF", "AFR", "RF", "RFR"])
+        tk = rng.choice(["A", "R", "C", "AF", "AFR", "RF", "RFR", "AS", "RS"])
         hint = rng.choice([None, "access_token", "custom hint", s()]) if tk == "C" else None
         return C.tb(s()), tk, C.topt(hint)
     raise ValueError(kind)
@@ -220,6 +222,20 @@ def gen_requests(tier, rng, kinds=KINDS, endpoints=None, n_random=None, avoid_cr
                          ["s" + ch + "c"] if ch != " " else ["sc"], [("k" + ch, ch + "v")])
             if l:
                 out.append((l, "single-character/" + kind))
+    # values that are literally the NAME of a protocol parameter, in every role, for every kind and placement of the credentials
+    for word in ("client_id", "client_secret", "scope", "grant_type", "token_type_hint", "redirect_uri", "code_verifier"):
+        for ki, kind in enumerate(kinds):
+            eps = endpoints or (REVOKE_ENDPOINTS if kind == "revoke" else eps_default)
+            for auth in ("B", "R"):
+                for secret in ("bbb", None):
+                    i += 1
+                    a1, a2, a3 = kind_args(kind, rng, [word])
+                    for sc, ex, cid in (([word], [], "aaa"), ([], [("k", word)], "aaa"), ([], [], word), ([word, "x"], [(word + "x", word)], "aaa")):
+                        if avoid_cred_extras and any(k in ("client_id", "client_secret") for k, _ in ex):
+                            continue
+                        l = req_line(variants[i % 2], kind, auth, cid, word if (secret and i % 2) else secret, eps[0], None, a1, a2, a3, sc, ex)
+                        if l:
+                            out.append((l, "parameter-name-as-value/" + kind))
     # literals that are new in the source (gen/srclit.py): each new word in every role a caller string can play (extra
     # name, extra value, scope, client id, secret, the kind's own arguments, type hint, redirect path), bare and embedded;
     # each new integer (and its neighbours) as the length of each of those strings and as the number of scopes / extras
